@@ -6,6 +6,7 @@ import StorageModel.C05.SelfW
 import StorageModel.C05.Schema
 import StorageModel.C05.SchemaSpec
 import StorageModel.C05.KeySize
+import StorageModel.C05.Restrict
 /- model driver for C05: `run spec` reads case lines on stdin and prints one output line per case
    (spec = false: the engine model's output; spec = true: the spec's verdict).
    Case and output formats: see /verif/harness/c05.go. -/
@@ -426,10 +427,106 @@ def stepLine (spec : Bool) (scs pa pb : String) (txs : List String) : String :=
 
 end SchemaDrv
 
+/-! ### R-cases: the schema model plus a restricting fk, tolerated refused deletes and creates through a
+    child store that persist the parent's link field (C05/Restrict.lean) -/
+namespace RestrictDrv
+open StorageModel.C05.Schema StorageModel.C05.Restrict SchemaDrv
+
+def parseRSchema (s : String) : RSchema :=
+  match s.splitOn "~" with
+  | [sc, "AB"] => { sc := parseSchema sc, fk := some .A }
+  | [sc, "BA"] => { sc := parseSchema sc, fk := some .B }
+  | sc :: _ => { sc := parseSchema sc, fk := none }
+  | [] => { sc := parseSchema "-", fk := none }
+
+def parseROp (s : String) : Option (ROp Key) :=
+  match s.splitOn ":" with
+  | ["cr", _x, id, t] => some (.createRef (parseKey id) (parseKey id).isEmpty none (parseKey t))
+  | ["crl", _x, id, t, i, ks] => some (.createRef (parseKey id) (parseKey id).isEmpty (some (i.toNat!, parseList ks)) (parseKey t))
+  | ["cp", x, id, i, ks] => some (.createP (parseStore x) (parseKey id) (parseKey id).isEmpty i.toNat! (parseList ks))
+  | ["dt", x, id] => some (.deleteT (parseStore x) (parseKey id))
+  | _ => (SchemaDrv.parseOp s).map .g
+
+def showRErr : RErr → String
+  | .base e => showErr e
+  | .referenced => "!referenced"
+  | .fkMissing => "!notfound"
+
+def rcandidates (rs : RSchema) (txs : List (List (ROp Key))) (pool : List Key) (f : Side) : List Key :=
+  pool ++ (txs.flatten.filterMap fun op =>
+    match op with
+    | .g (.create x id _ _) => if x.side = f then some id else none
+    | .createRef id _ _ _ => if rs.fk = some f then some id else none
+    | .createP x id _ _ _ => if x.side = f then some id else none
+    | _ => none)
+
+def pairsView (l : List (Key × Key)) (sep : String) : String :=
+  ";".intercalate (sortBy (fun (a b : String) => decide (a < b)) (l.map fun p => Bytes.toWire p.1 ++ sep ++ Bytes.toWire p.2))
+
+def fkViewM (r : RSt Key) : String := "#F" ++ pairsView r.fkv ">" ++ "#I" ++ pairsView r.idx "<"
+def fkViewS (r : RSSt Key) : String :=
+  "#F" ++ pairsView r.refs ">" ++ "#I" ++ pairsView (r.refs.map fun p => (p.2, p.1)) "<"
+
+def runTxModel (rs : RSchema) (r : RSt Key) (ops : List (ROp Key)) (cands : List (Store × Key)) (vw : RSt Key → String) :
+    RSt Key × String :=
+  let strict (x : RSt Key) : RSt Key := { x with g := strictSlots rs.sc x.g }
+  let rec go (cur : RSt Key) (ops : List (ROp Key)) (acc : List String) : RSt Key × List String × String :=
+    match ops with
+    | [] => (cur, acc.reverse, "")
+    | op :: rest =>
+      let o := rstep rs cur op
+      let st := strict o.st
+      match o.err with
+      | some e =>
+        if op.tolerated then go st rest ((showRet o.ret ++ showRErr e) :: acc)
+        else (r, ((showRet o.ret ++ showRErr e) :: acc).reverse, vw { st with g := strictEntsM cands st.g })
+      | none => go st rest (showRet o.ret :: acc)
+  let q := go r ops []
+  let fin : RSt Key := { q.1 with g := strictEntsM cands q.1.g }
+  (fin, ";".intercalate q.2.1 ++ "|" ++ q.2.2 ++ "|" ++ vw fin)
+
+def runTxSpec (rs : RSchema) (r : RSSt Key) (ops : List (ROp Key)) (cands : List (Store × Key)) (vw : RSSt Key → String) :
+    RSSt Key × String :=
+  let rec go (cur : RSSt Key) (ops : List (ROp Key)) (acc : List String) : RSSt Key × List String × String :=
+    match ops with
+    | [] => (cur, acc.reverse, "")
+    | op :: rest =>
+      match rsstep rs cur op with
+      | none => if op.tolerated then go cur rest ("!" :: acc) else (r, ("!" :: acc).reverse, "*")
+      | some (r', ret) => go { r' with g := strictSpec rs.sc r'.g } rest (showRet ret :: acc)
+  let q := go r ops []
+  let fin : RSSt Key := { q.1 with g := strictEntsS cands q.1.g }
+  (fin, ";".intercalate q.2.1 ++ "|" ++ q.2.2 ++ "|" ++ vw fin)
+
+def stepLine (spec : Bool) (scs pa pb : String) (txs : List String) : String :=
+  let rs := parseRSchema scs
+  if !rs.sc.wf then "ill-formed-schema" else
+  let poolA := parseList pa
+  let poolB := parseList pb
+  let ptxs := txs.map fun t => (t.splitOn ";").filterMap parseROp
+  let candA := dedupKeys (rcandidates rs ptxs poolA .A)
+  let candB := dedupKeys (rcandidates rs ptxs poolB .B)
+  let cands := allCands candA candB
+  if spec then
+    let vw := fun (r : RSSt Key) => view rs.sc (ofSpec rs.sc r.g) poolA poolB candA candB ++ fkViewS r
+    let r := ptxs.foldl (fun (acc : RSSt Key × List String) t =>
+      let o := runTxSpec rs acc.1 t cands vw
+      (o.1, acc.2 ++ [o.2])) (({} : RSSt Key), [])
+    " ".intercalate r.2
+  else
+    let vw := fun (r : RSt Key) => view rs.sc (ofModel r.g) poolA poolB candA candB ++ fkViewM r
+    let r := ptxs.foldl (fun (acc : RSt Key × List String) t =>
+      let o := runTxModel rs acc.1 t cands vw
+      (o.1, acc.2 ++ [o.2])) ((r0 : RSt Key), [])
+    " ".intercalate r.2
+
+end RestrictDrv
+
 def step (line : String) : String :=
   match splitSp line with
   | "S" :: pa :: txs => SelfDrv.stepLine false pa txs
   | "G" :: sc :: pa :: pb :: txs => SchemaDrv.stepLine false sc pa pb txs
+  | "R" :: sc :: pa :: pb :: txs => RestrictDrv.stepLine false sc pa pb txs
   | _kind :: pa :: pb :: txs =>
     let poolA := parseList pa
     let poolB := parseList pb
@@ -482,6 +579,7 @@ def specStep (line : String) : String :=
   | "X" :: _ => "outside-vocabulary"
   | "S" :: pa :: txs => SelfDrv.stepLine true pa txs
   | "G" :: sc :: pa :: pb :: txs => SchemaDrv.stepLine true sc pa pb txs
+  | "R" :: sc :: pa :: pb :: txs => RestrictDrv.stepLine true sc pa pb txs
   | _kind :: pa :: pb :: txs =>
     let poolA := parseList pa
     let poolB := parseList pb
